@@ -53,7 +53,7 @@ class Scheduler(interpose.Listener):
         self.clients = {}
         self.by_thread = {}
         self.events = []
-        self.lock_holder = None         # conn object holding the write lock
+        self.locks = {}                 # database path -> conn object holding its write lock
         self.txn = {}                   # conn -> True when inside BEGIN..COMMIT
         self.conn_client = {}
         self.file_ids = {}
@@ -65,6 +65,11 @@ class Scheduler(interpose.Listener):
         self.inject = None              # callable(kind, desc, client) -> exception or None (every statement / file op)
         self.choices = []               # the schedule actually taken (client ids)
         self.page_size = 4096
+        self.progress = 0
+        self.progress_events = ('commit', 'awrite', 'ret', 'exit', 'enter')
+        self.prog = {}
+        self.spin_budget = 2
+        self.vclock = None              # virtual-time clock for sleeping clients (throttle)
 
     # ------------------------------------------------------------------ ids
     def fid(self, path):
@@ -79,14 +84,24 @@ class Scheduler(interpose.Listener):
     def emit(self, ev):
         ev['seq'] = len(self.events) + 1
         self.events.append(ev)
+        if ev.get('ev') in self.progress_events:
+            self.progress += 1
+            self.prog[ev.get('c')] = self.prog.get(ev.get('c'), 0) + 1
 
     # ------------------------------------------------------- client side
-    def yield_point(self, kind, desc):
+    @property
+    def lock_holder(self):
+        """the (single) holder when one database is watched; None when no lock is held"""
+        for v in self.locks.values():
+            return v
+        return None
+
+    def yield_point(self, kind, desc, path=None):
         c = self.me()
         if c is None:
             return
         with self.cv:
-            c.pending = (kind, desc)
+            c.pending = (kind, desc, path)
             self.baton = None
             self.cv.notify_all()
             while self.baton != c.cid:
@@ -99,8 +114,22 @@ class Scheduler(interpose.Listener):
             if exc is not None:
                 raise exc
 
+    def others(self, c):
+        """progress made by the other clients (a spinner's own failed attempts do not count)"""
+        return self.progress - self.prog.get(c.cid, 0)
+
+    def vsleep(self, delay):
+        """Sleep in virtual time (throttle): the client wakes when the virtual clock reaches now + delay."""
+        c = self.me()
+        c.wake = self.vclock.now + delay
+        self.yield_point('vsleep', 'vsleep')
+
+    @staticmethod
+    def dbpath(conn):
+        return getattr(conn, '_verif_path', None)
+
     def holds_lock(self, conn):
-        return self.lock_holder is conn
+        return self.locks.get(self.dbpath(conn)) is conn
 
     # interpose.Listener ---------------------------------------------------
     def sql_before(self, conn, sql, params):
@@ -118,7 +147,7 @@ class Scheduler(interpose.Listener):
         if head == 'COMMIT' and self.holds_lock(conn):
             # snapshot through the writer's own connection, immediately before COMMIT
             conn._verif_snap = self.snapshot(conn)
-        self.yield_point('sql', head)
+        self.yield_point('sql', head, self.dbpath(conn))
 
     def sql_after(self, conn, sql, params, rows, error):
         c = self.me()
@@ -131,7 +160,7 @@ class Scheduler(interpose.Listener):
             kind = 'immediate' if 'IMMEDIATE' in s.upper() else 'exclusive' if 'EXCLUSIVE' in s.upper() else 'deferred'
             if error is None:
                 if kind != 'deferred':
-                    self.lock_holder = conn
+                    self.locks[self.dbpath(conn)] = conn
                 self.txn[id(conn)] = True
                 self.busy_count[cid] = 0
                 self.emit({'ev': 'begin', 'c': cid, 'ok': 1, 'kind': kind})
@@ -146,16 +175,16 @@ class Scheduler(interpose.Listener):
                 ev = {'ev': 'commit', 'c': cid}
                 ev.update(snap)
                 self.emit(ev)
-                if self.lock_holder is conn:
-                    self.lock_holder = None
+                if self.holds_lock(conn):
+                    self.locks.pop(self.dbpath(conn), None)
                 self.txn.pop(id(conn), None)
                 conn._verif_snap = None
             else:
                 self.emit({'ev': 'sqlerr', 'c': cid, 'what': 'commit'})
         elif head == 'ROLLBA':
             self.emit({'ev': 'rollback', 'c': cid})
-            if self.lock_holder is conn:
-                self.lock_holder = None
+            if self.holds_lock(conn):
+                self.locks.pop(self.dbpath(conn), None)
             self.txn.pop(id(conn), None)
         elif head in WRITE_HEADS:
             if error is not None:
@@ -164,9 +193,9 @@ class Scheduler(interpose.Listener):
                 ev = {'ev': 'awrite', 'c': cid}
                 ev.update(self.snapshot(conn))
                 self.emit(ev)
-            elif self.lock_holder is None and self.txn.get(id(conn)):
+            elif self.locks.get(self.dbpath(conn)) is None and self.txn.get(id(conn)):
                 # first write of a deferred transaction takes the lock
-                self.lock_holder = conn
+                self.locks[self.dbpath(conn)] = conn
         elif error is not None:
             self.emit({'ev': 'sqlerr', 'c': cid, 'what': 'read'})
         elif rows and s.upper().startswith('PRAGMA PAGE_COUNT'):
@@ -227,18 +256,17 @@ class Scheduler(interpose.Listener):
     def blocked(self, c):
         """A client about to BEGIN against a held lock is not scheduled unless
         the strategy wants busy attempts (bounded)."""
-        if c.pending and c.pending[0] == 'sql' and c.pending[1].startswith('BEGIN') and self.lock_holder is not None:
-            if self.conn_of_lock_client() == c.cid:
+        if c.pending and c.pending[0] == 'sql' and c.pending[1].startswith('BEGIN'):
+            holder = self.locks.get(c.pending[2])
+            if holder is None or self.conn_client.get(id(holder)) == c.cid:
                 return False
             return self.busy_count.get(c.cid, 0) >= self.busy_budget
-        if c.pending and c.pending[0] == 'sleep' and self.lock_holder is not None:
-            return self.conn_of_lock_client() != c.cid and self.busy_count.get(c.cid, 0) >= self.busy_budget
+        if c.pending and c.pending[0] == 'sleep':
+            # a spinning client is not scheduled again until somebody else made progress
+            return getattr(c, 'spins', 0) >= self.spin_budget and getattr(c, 'seen', -1) == self.others(c)
+        if c.pending and c.pending[0] == 'vsleep':
+            return self.vclock is not None and self.vclock.now < c.wake
         return False
-
-    def conn_of_lock_client(self):
-        if self.lock_holder is None:
-            return None
-        return self.conn_client.get(id(self.lock_holder))
 
     def run(self):
         interpose.set_listener(self, self.root)
@@ -246,7 +274,12 @@ class Scheduler(interpose.Listener):
         sched = self
 
         def sleep(t):
-            if sched.me() is not None:
+            c = sched.me()
+            if c is not None:
+                if getattr(c, 'seen', -1) == sched.others(c):
+                    c.spins = getattr(c, 'spins', 0) + 1
+                else:
+                    c.spins, c.seen = 1, sched.others(c)
                 sched.yield_point('sleep', 'sleep')
             else:
                 real_sleep(t)
@@ -268,6 +301,10 @@ class Scheduler(interpose.Listener):
                     if not live:
                         break
                     enabled = [c for c in live if not self.blocked(c)]
+                    if not enabled and self.vclock is not None and any(c.pending and c.pending[0] == 'vsleep' for c in live):
+                        # everybody sleeps: virtual time jumps to the earliest wake-up
+                        self.vclock.now = min(c.wake for c in live if c.pending and c.pending[0] == 'vsleep')
+                        enabled = [c for c in live if not self.blocked(c)]
                     if not enabled:
                         # everybody spins on a lock nobody will release: give up this schedule
                         self.emit({'ev': 'stuck', 'c': 0})
